@@ -75,7 +75,10 @@ type ctorHold struct {
 }
 
 func newSProto(n *onet.TreeNodeInstance) (onet.ProtocolInstance, error) {
-	if g, _ := ctorGate.Load().(*ctorHold); g != nil && atomic.CompareAndSwapInt32(&g.used, 0, 1) {
+	// only the start the script makes is held: a root instance on the target (the constructors that
+	// run on the other servers for traffic still arriving must not take the hold)
+	if g, _ := ctorGate.Load().(*ctorHold); g != nil && n.IsRoot() && n.ServerIdentity().ID.Equal(sobsState.target) &&
+		atomic.CompareAndSwapInt32(&g.used, 0, 1) {
 		close(g.entered)
 		<-g.release
 	}
@@ -164,6 +167,7 @@ type sobsJSON struct {
 	OpsPending   int      `json:"ops_pending"`
 	ConnsOpen    int      `json:"conns_open"`
 	OwnOpenAtRet int      `json:"own_endpoints_open_when_close_returned"`
+	OwnOpenEnd   int      `json:"own_endpoints_open_after_settling"`
 	PeerConns    int      `json:"connections_peers_still_hold"`
 	ConnsSeen    int      `json:"connections_of_the_target_seen"`
 	Ops          []string `json:"ops"`
@@ -204,6 +208,10 @@ func waitStack(d time.Duration, before int, subs ...string) bool {
 		}
 		time.Sleep(2 * time.Millisecond)
 	}
+	if countStack(subs...) > before {
+		return true
+	}
+	noteMiss("stack " + strings.Join(subs, " "))
 	return false
 }
 
@@ -218,6 +226,11 @@ func tryListen(addr string) bool {
 
 func runServer(in input) lib.Case {
 	sv := in.Srv
+	opDeadline = patience
+	// wait is the bound of one wait for an operation of the code under test: generous (it is only
+	// ever spent when the awaited event does not come at all), short once a wait of this case has
+	// already expired
+	wait := func() time.Duration { return opDeadline }
 	baseline := onetGoroutines()
 	sched := lib.NewSched()
 	onet.SetVerifHook(sched.Hook)
@@ -238,8 +251,9 @@ func runServer(in input) lib.Case {
 	}
 	servers := lt.GenServers(sv.Servers)
 	if startGate != nil {
-		startHeld = startGate.WaitHit(100 * time.Millisecond)
+		startHeld = startGate.WaitHit(wait())
 		if !startHeld {
+			noteMiss("server.started never reached")
 			startGate.Release()
 		}
 	}
@@ -325,12 +339,12 @@ func runServer(in input) lib.Case {
 	}
 	if !sv.Traffic {
 		// every ping delivered before the script starts
-		deadline := time.Now().Add(10 * time.Second)
+		deadline := time.Now().Add(wait())
 		for atomic.LoadInt64(&sobsState.processed) < expected && time.Now().Before(deadline) {
 			time.Sleep(time.Millisecond)
 		}
 	} else {
-		deadline := time.Now().Add(10 * time.Second)
+		deadline := time.Now().Add(wait())
 		for atomic.LoadInt64(&sobsState.processed) < 5 && time.Now().Before(deadline) {
 			time.Sleep(200 * time.Microsecond)
 		}
@@ -365,10 +379,13 @@ func runServer(in input) lib.Case {
 		if atomic.CompareAndSwapInt64(&closeRet, 0, s) {
 			// at the instant the first Close returns, before anything settles: every connection the
 			// target has opened or accepted (seen at the router's schedule points) must be closed
+			// (synchronous facts only: the endpoint objects' closed flags and the router's own tables.
+			// An endpoint that is in neither table belongs to a set-up thread that has not yet reached
+			// its first test of the closed flag - Stop cannot know it; it is counted after settling.)
 			tconnMu.Lock()
 			n := 0
 			for _, c := range tconns {
-				if closed, known := network.VerifConnClosed(c); known && !closed {
+				if closed, known := network.VerifConnClosed(c); known && !closed && routerKnows(target.Router, c) {
 					n++
 				}
 			}
@@ -382,6 +399,7 @@ func runServer(in input) lib.Case {
 	}
 	var hold *ctorHold
 	var heldStart *op
+	ctorHeldSeen := false
 	defer ctorGate.Store((*ctorHold)(nil))
 	timerHeld := false
 	closeTimedOut := false // the first Close already missed its deadline once
@@ -394,7 +412,8 @@ func runServer(in input) lib.Case {
 				roots = append(roots[:m.A], roots[m.A+1:]...)
 			}
 		case "timerfire":
-			if !timerGate.WaitHit(10 * time.Second) {
+			if !timerGate.WaitHit(wait()) {
+				noteMiss("removal timer never fired")
 				scenarioErr = fmt.Sprintf("macro %d: removal timer never fired", i)
 				timerGate.Release()
 			} else {
@@ -404,7 +423,7 @@ func runServer(in input) lib.Case {
 			timerGate.Release()
 			timerHeld = false
 			if firstClose != nil {
-				closeTimedOut = !waitCh(firstClose.done, 5*time.Second)
+				closeTimedOut = !waitCh(firstClose.done, wait())
 			}
 		case "close":
 			if firstClose != nil {
@@ -440,10 +459,10 @@ func runServer(in input) lib.Case {
 				atomic.StoreInt32(&flag, 1)
 				if startHeld {
 					// every call is inside Close() before Start() is allowed to pick up the signal
-					waitStack(5*time.Second, inClose+sv.Barrier-1, "onet/v3.(*Server).Close(")
+					waitStack(wait(), inClose+sv.Barrier-1, "onet/v3.(*Server).Close(")
 					startGate.Release()
 				}
-				closeTimedOut = !waitCh(firstClose.done, 5*time.Second)
+				closeTimedOut = !waitCh(firstClose.done, wait())
 				continue
 			}
 			inStore := countStack("(*treeStorage).Close", "sync.(*WaitGroup).Wait")
@@ -456,16 +475,16 @@ func runServer(in input) lib.Case {
 			if timerHeld {
 				// the forced interleaving: Close must be inside treeStorage.Close, waiting for the timer
 				// goroutine, before that goroutine is released
-				if !waitStack(10*time.Second, inStore, "(*treeStorage).Close", "sync.(*WaitGroup).Wait") {
+				if !waitStack(wait(), inStore, "(*treeStorage).Close", "sync.(*WaitGroup).Wait") {
 					scenarioErr = fmt.Sprintf("macro %d: Close never reached the tree store", i)
 				}
 			} else {
-				ok := waitCh(firstClose.done, 5*time.Second)
+				ok := waitCh(firstClose.done, wait())
 				closeTimedOut = !ok
 				if ok && !sv.Concurrent {
 					for k := 1; k < sv.Closes; k++ {
 						x := startOp("close-again", doClose)
-						waitCh(x.done, 5*time.Second)
+						waitCh(x.done, wait())
 					}
 				}
 			}
@@ -480,13 +499,27 @@ func runServer(in input) lib.Case {
 				}
 				return "ok"
 			})
-			if !waitCh(hold.entered, 5*time.Second) {
+			// The hold is established by an observed event: the constructor has been entered (so the
+			// instance is registered and its reader runs) and has not returned. If instead the start
+			// returns without ever being held, that is what happened: the case is then compared with
+			// the model on the schedule "the start completed before Close" (class +unheld).
+			select {
+			case <-hold.entered:
+				ctorHeldSeen = true
+			case <-heldStart.done:
+				select {
+				case <-hold.entered:
+					ctorHeldSeen = true // entered and (against the gate) returned: cannot happen
+				default:
+				}
+			case <-time.After(wait()):
+				noteMiss("constructor neither entered nor start returned")
 				scenarioErr = fmt.Sprintf("macro %d: the constructor was never entered", i)
 			}
 		case "startrelease":
 			if hold != nil {
 				close(hold.release)
-				waitCh(heldStart.done, 5*time.Second)
+				waitCh(heldStart.done, wait())
 			}
 		case "newinstance":
 			x := startOp("create-protocol", func() string {
@@ -496,21 +529,21 @@ func runServer(in input) lib.Case {
 				}
 				return "ok"
 			})
-			waitCh(x.done, 5*time.Second)
+			waitCh(x.done, wait())
 		}
 		// a step the implementation always takes on the unchanged tree that did not happen within its
 		// deadline is an observation: the script goes on (class suffix +cut), nothing is discarded
 	}
 	short := 50 * time.Millisecond
 	if firstClose != nil {
-		d := 5 * time.Second
+		d := wait()
 		if closeTimedOut {
 			d = short
 		}
 		o.Returned = waitCh(firstClose.done, d)
 	}
 	for _, x := range ops {
-		d := 5 * time.Second
+		d := wait()
 		if x == firstClose || !o.Returned {
 			// already waited for / blocked behind a Close that does not return
 			d = short
@@ -543,33 +576,51 @@ func runServer(in input) lib.Case {
 	}
 	sobsState.Unlock()
 	o.Processed = atomic.LoadInt64(&sobsState.processed)
-	if n, ok := ov.VerifInstancesTry(); ok {
-		o.Instances, o.InstancesObs = n, true
+	readInstances := func() bool {
+		if n, ok := ov.VerifInstancesTry(); ok {
+			o.Instances, o.InstancesObs = n, true
+			return true
+		}
+		return false
 	}
-	// connections: the target's own endpoints at the instant Close returned, and the peer-side view -
-	// connections the other servers still hold to the target shortly afterwards
+	if !readInstances() && o.Returned {
+		// Close has returned: the table's lock is only ever held for a moment now
+		pollUntil(readInstances)
+	}
+	// connections. At the instant Close returned: the target's own endpoints that its router knew
+	// (sampled inside doClose, synchronous facts only). After settling - every consequence awaited
+	// by its own event: the target's endpoints that are still open (an endpoint abandoned by a
+	// refused set-up stays open for ever) and the connections the other servers still hold to it.
 	tconnMu.Lock()
 	o.ConnsSeen = len(tconns)
 	tconnMu.Unlock()
 	if o.Returned {
 		o.OwnOpenAtRet = int(atomic.LoadInt32(&ownOpen))
 		tid := target.ServerIdentity.GetID()
-		deadline := time.Now().Add(time.Second)
-		for {
+		pollUntil(func() bool {
 			left := 0
 			for _, sv2 := range servers[1:] {
 				left += sv2.Router.VerifConnections()[tid]
 			}
 			o.PeerConns = left
-			if left == 0 || time.Now().After(deadline) {
-				break
+			tconnMu.Lock()
+			own := 0
+			for _, c := range tconns {
+				if closed, known := network.VerifConnClosed(c); known && !closed {
+					own++
+				}
 			}
-			time.Sleep(2 * time.Millisecond)
-		}
+			tconnMu.Unlock()
+			o.OwnOpenEnd = own
+			if left+own > 0 {
+				time.Sleep(time.Millisecond)
+			}
+			return left+own == 0
+		})
 		if o.OwnOpenAtRet > 0 {
 			o.ConnsOpen += o.OwnOpenAtRet
 		}
-		o.ConnsOpen += o.PeerConns
+		o.ConnsOpen += o.PeerConns + o.OwnOpenEnd
 	}
 	o.Ports = true
 	o.Db = true
@@ -598,14 +649,17 @@ func runServer(in input) lib.Case {
 		defer guard()
 		lt.CloseAll()
 	}()
-	waitCh(closed, 20*time.Second)
+	waitCh(closed, wait())
 	sched.ReleaseAll()
-	deadline := time.Now().Add(1500 * time.Millisecond)
+	// goroutines end some time after what they wait for has been closed: awaited, not timed
 	left := onetGoroutines() - baseline
-	for left > 0 && time.Now().Before(deadline) {
-		time.Sleep(10 * time.Millisecond)
+	pollUntil(func() bool {
 		left = onetGoroutines() - baseline
-	}
+		if left > 0 {
+			time.Sleep(5 * time.Millisecond)
+		}
+		return left <= 0
+	})
 	if left < 0 {
 		left = 0
 	}
@@ -644,7 +698,7 @@ func runServer(in input) lib.Case {
 	coq := fmt.Sprintf("ServerClose %s %s %s", lib.NatList(o.Insts), lib.List(ms), sobs)
 	if heldStart != nil {
 		// validated against Net/StartClose.v
-		coq = fmt.Sprintf("CtorHeld %s %s", lib.Bool(heldStart.res == "ok"), sobs)
+		coq = fmt.Sprintf("CtorHeld %s %s %s", lib.Bool(ctorHeldSeen), lib.Bool(heldStart.res == "ok"), sobs)
 	}
 	if sv.Barrier > 1 {
 		// the overlapping calls are validated against the k-caller model (Net/CloseConc.v)
@@ -667,6 +721,9 @@ func runServer(in input) lib.Case {
 		coq = fmt.Sprintf("ServerCloseRace %d %d %d %d %d %s", sv.Barrier, len(o.Insts), oks, errs, pending, sobs)
 	}
 	class := serverClass(in)
+	if heldStart != nil && !ctorHeldSeen {
+		class += "+unheld"
+	}
 	if scenarioErr != "" {
 		class += "+cut"
 	}
